@@ -924,9 +924,7 @@ class VM:
                 if not isinstance(result, JSObject):
                     return result
             elif callable(method):
-                result = method()
-                if result is None:
-                    result = UNDEFINED
+                result = self._call_host(method, value, [])
                 if not isinstance(result, JSObject):
                     return result
 
@@ -2398,8 +2396,7 @@ class VM:
             # Use synchronous execution (like _call_callback)
             return self._call_callback(getter, [], this_val)
         elif callable(getter):
-            result = getter()
-            return result if result is not None else UNDEFINED
+            return self._call_host(getter, this_val, [])
         return UNDEFINED
 
     def _invoke_setter(self, setter: Any, this_val: JSValue, value: JSValue) -> None:
@@ -2408,7 +2405,7 @@ class VM:
             # Use synchronous execution (like _call_callback)
             self._call_callback(setter, [value], this_val)
         elif callable(setter):
-            setter(value)
+            self._call_host(setter, this_val, [value])
 
     def _call_function(self, arg_count: int, this_val: Optional[JSValue]) -> None:
         """Call a function."""
@@ -2421,8 +2418,7 @@ class VM:
             self._invoke_js_function(callee, args, this_val or UNDEFINED)
         elif callable(callee):
             # Native function
-            result = callee(*args)
-            self.stack.append(result if result is not None else UNDEFINED)
+            self.stack.append(self._call_host(callee, this_val, args))
         else:
             raise JSTypeError(f"{to_string(callee)} is not a function")
 
@@ -2430,19 +2426,29 @@ class VM:
         self, method: JSValue, this_val: JSValue, args: List[JSValue]
     ) -> None:
         """Call a method."""
-        from .values import JSBoundMethod
-
         if isinstance(method, JSFunction):
             self._invoke_js_function(method, args, this_val)
-        elif isinstance(method, JSBoundMethod):
-            # JSBoundMethod expects this_val as first argument
-            result = method(this_val, *args)
-            self.stack.append(result if result is not None else UNDEFINED)
         elif callable(method):
-            result = method(*args)
-            self.stack.append(result if result is not None else UNDEFINED)
+            self.stack.append(self._call_host(method, this_val, args))
         else:
             raise JSTypeError(f"{to_string(method)} is not a function")
+
+    def _call_host(
+        self, fn: Any, this_val: Optional[JSValue], args: List[JSValue]
+    ) -> JSValue:
+        """Call a Python callable that a script value holds.
+
+        Natives wrapped in JSBoundMethod (Object.prototype methods, ...) take
+        `this` as their first argument; plain callables ignore it. None is not a
+        JavaScript value, so a native that returns nothing returns undefined.
+        """
+        from .values import JSBoundMethod
+
+        if isinstance(fn, JSBoundMethod):
+            result = fn(this_val if this_val is not None else UNDEFINED, *args)
+        else:
+            result = fn(*args)
+        return result if result is not None else UNDEFINED
 
     def _call_callback(
         self, callback: JSValue, args: List[JSValue], this_val: JSValue = None
@@ -2521,8 +2527,7 @@ class VM:
                 return self.stack.pop()
             return UNDEFINED
         elif callable(callback):
-            result = callback(*args)
-            return result if result is not None else UNDEFINED
+            return self._call_host(callback, this_val, args)
         else:
             raise JSTypeError(f"{to_string(callback)} is not a function")
 
